@@ -16,6 +16,8 @@ OpA(e) == IF Has(e.res, "A1") THEN ToNfa(e.res.A1) ELSE ToNfa(e.A)
 OpB(e) == IF Has(e.res, "B1") THEN ToNfa(e.res.B1) ELSE ToNfa(e.B)
 Unchanged(e) == ToNfa(e.res.A_after) = OpA(e)
              /\ (Has(e.res, "B_after") => ToNfa(e.res.B_after) = OpB(e))
+             \* a copy of the first operand (sharing its storage) that was alive during the call still has its value
+             /\ (Has(e.res, "keep_after") => ToNfa(e.res.keep_after) = OpA(e))
 PreOK(pre, X1, X) ==
   CASE pre = "reverse" -> FALangEq(X1, FRev(X))
     [] pre = "unreach" -> FALangEq(X1, X)
